@@ -429,12 +429,19 @@ def run(chk):
              'by TLC against MapStore/Geometry; non-trivial = ' +
              {'C11': 'run with at least one non-empty spatial answer', 'C12': 'map with at least one edge',
               'C18': 'history with a reopen and >= 3 different operations'}[pid])
+    if pid == 'C12':
+        # matcher half: the same edge-state matcher on both backends (embedding group, validated by EmbedTrace)
+        from . import embed
+        embed.run(chk)
     chk.assume('rtree / pyproj are not installed: InMemMap index paths and CRS transforms are not exercised')
     chk.assume('edges only between existing, distinct nodes; fresh node ids (the documented way of building maps)')
     chk.assume('lat-lon placement: membership decided only outside a 0.4 % band around the radius; distances within 0.8 %')
 
 
 def replay(pid, case):
+    if case['case'].get('kind') == 'embed':
+        from . import embed
+        return embed.replay(pid, case)
     chk = common.Check(pid, 'quick', 0)
     run_ = case['case']['run']
     place = place_from(run_['place'])
